@@ -332,7 +332,7 @@ class MPS(DNAS):
             elif self.full_cost:
                 # TODO: this is constant and can be pre-computed for efficiency
                 # TODO: should we add default bitwidth and format for non-MPS layers or not?
-                v = vars(layer)
+                v = dict(vars(layer))
                 v.update(shapes_dict(node))
                 cost = cost + cost_fn_map[lname](v)
         return cost
